@@ -1,6 +1,7 @@
 import JediModel.Proto
 import JediModel.Model.SysPath
 import JediModel.Model.ProjFile
+import JediModel.Model.DefaultProject
 import JediModel.Gen.C20
 open Lean Proto JediModel.SysPath
 open JediModel.Gen.C20
@@ -108,6 +109,23 @@ def handle (j : Json) : Json :=
         | .ok q => jobj [("constructed", jProject p),
                          ("file", jarr (file.2.map fun kv => jarr [jstr kv.1, jPyVal kv.2])),
                          ("loaded", jProject q)]
+  | "defaultproject" =>
+    -- get_default_project on the chain of directories (innermost first): [load, hasInit, isFile, django, potential]
+    let chain : List JediModel.DefaultProject.Dir := (arr j "chain").zipIdx.map fun (d, i) =>
+      match asArr d with
+      | [l, a, b, c, e] =>
+        { id := i, load := (match asStr l with
+            | "loaded" => .loaded
+            | "notadir" => .notADirectory
+            | _ => .missing),
+          hasInit := asBool a, isFile := asBool b, django := asBool c, potential := asBool e }
+      | _ => { id := i, load := .missing, hasInit := false, isFile := false, django := false, potential := false }
+    match JediModel.DefaultProject.defaultProject chain with
+    | .config d => jobj [("kind", jstr "config"), ("dir", jnat d)]
+    | .django d => jobj [("kind", jstr "django"), ("dir", jnat d)]
+    | .probable d => jobj [("kind", jstr "probable"), ("dir", jnat d)]
+    | .noInit d => jobj [("kind", jstr "noinit"), ("dir", jnat d)]
+    | .curdir => jobj [("kind", jstr "curdir"), ("dir", .null)]
   | "savehist" =>
     -- a history of saves into one project directory: the file after every save, for the open mode of the source
     let pre : Option (List Char) := match j.getObjVal? "pre" with
